@@ -45,6 +45,7 @@ def gen_case(rng):
                 wrong=[[rng.random() < 0.15 for _ in range(8)]
                        for _ in range(ncyc + 4)],
                 lost=[rng.random() < 0.07 for _ in range(ncyc + 4)],
+                restart=rng.random() < 0.35,
                 rseed=rng.getrandbits(32))
 
 
@@ -53,6 +54,7 @@ def run_case(case):
     sims = simgroup.make_sims(case["terms"])
     b = bus.Bus(sims)
     hist = dict(cyc=[], updates=[], errors=[], logs=[])
+    hists = [hist]
     state = dict(k=0, index=None)
 
     class H(logging.Handler):
@@ -82,15 +84,20 @@ def run_case(case):
             length, typ, dgs, pad = frames.parse(data)
             wrong = case["wrong"][k % len(case["wrong"])]
 
+            true_wkc = {}
+
             def ov(fno, dno, wkc):
+                # wkc = the number the slaves on the ring really produce
+                true_wkc[dno] = wkc
                 return wkc + 1 if dno > 0 and wrong[(dno - 1) % 8] else wkc
             b.wkc_override = ov
             resp = b.process(data)
             b.wkc_override = None
             rdgs = frames.parse(resp)[2]
             lost = case["lost"][k % len(case["lost"])]
-            hist["cyc"].append(dict(
+            hists[-1]["cyc"].append(dict(
                 k=k, sent=data, resp=resp, lost=lost,
+                true_wkc=[true_wkc.get(i + 1) for i in range(len(dgs) - 1)],
                 sent_wkc=[g.wkc for g in dgs[1:]],
                 resp_wkc=[g.wkc for g in rdgs[1:]],
                 outram=[bytes(s.mem[0x1000:0x1000 + d["osz"]])
@@ -103,49 +110,69 @@ def run_case(case):
         def upd(data):
             before = sg.wkc_errors
             r = orig(data)
-            hist["updates"].append(dict(
+            hists[-1]["updates"].append(dict(
                 data=bytes(data), errors=sg.wkc_errors - before,
                 seen=[d.seen[-1] for d in devs],
                 sent=[d.sent[-1] if d.sent else None for d in devs]))
             return r
         sg.update_devices = upd
-        task = sg.start()
-        state["index"] = sg.packet_index
-        hist["sg"] = sg
-        hist["ts"] = ts
-        while len(hist["updates"]) < case["cycles"] and not task.done():
-            await asyncio.sleep(0.005)
-        if task.done() and not task.cancelled():
-            hist["task_error"] = repr(task.exception())
-        task.cancel()
-        try:
-            await task
-        except asyncio.CancelledError:
-            pass
-        except Exception as ex:
-            hist["task_error"] = repr(ex)
+        for seg in range(2 if case.get("restart") else 1):
+            if seg:
+                hists.append(dict(cyc=[], updates=[], errors=[],
+                                  logs=hist["logs"]))
+            h_ = hists[-1]
+            task = sg.start()
+            state["index"] = sg.packet_index
+            h_["sg"] = sg
+            h_["ts"] = ts
+            ncyc = case["cycles"] if seg == 0 else max(4, case["cycles"] // 2)
+            while len(h_["updates"]) < ncyc and not task.done():
+                await asyncio.sleep(0.005)
+            if task.done() and not task.cancelled():
+                h_["task_error"] = repr(task.exception())
+            task.cancel()
+            try:
+                await task
+            except asyncio.CancelledError:
+                pass
+            except Exception as ex:
+                h_["task_error"] = repr(ex)
+            # the layout of this run (start() allocates anew)
+            h_["counters"] = sorted(sg.packet.counters.items())
+            h_["assign"] = {t: dict(sg.pdo_assign[t]) for t in ts}
+            await asyncio.sleep(0.05)
     try:
         aio.run(main, wall_limit=40)
     finally:
         root.handlers, root.level = old[0], old[1]
         root.setLevel(old[1])
-    return hist
+    return hists
 
 
 def check_case(case, res):
     try:
-        hist = run_case(case)
+        hists = run_case(case)
     except aio.WallClock:
         res.inconc("wall-clock watchdog")
         return
-    res.case(case, nontrivial=len(hist["updates"]) >= 5)
+    res.case(case, nontrivial=len(hists[0]["updates"]) >= 5)
+    for seg, hist in enumerate(hists):
+        if seg:
+            res.count("restarted_runs")
+        if check_run(case, hist, res, seg) is False:
+            return
+
+
+def check_run(case, hist, res, seg):
     res.count("cycles", len(hist["updates"]))
     if "task_error" in hist:
         res.violation("unexplained:run-failed", hist["task_error"],
                       case=case, witness=hist["logs"][:5])
-        return
+        return False
     sg, ts = hist["sg"], hist["ts"]
-    counters = sorted(sg.packet.counters.items())
+    counters = hist["counters"]
+    assign = hist["assign"]
+    tag = " (after a restart of the group)" if seg else ""
     delivered = [c for c in hist["cyc"] if not c["lost"]]
     res.count("frames_lost", sum(1 for c in hist["cyc"] if c["lost"]))
     # pair update n with delivered response n
@@ -154,10 +181,10 @@ def check_case(case, res):
             res.violation("unexplained:update-data",
                           f"update {n} did not receive response {c['k']}",
                           case=case)
-            return
+            return False
         # inputs seen == data of that response
         for ti, (t, d) in enumerate(zip(ts, case["terms"])):
-            st = sg.pdo_assign[t][SyncManager.IN]
+            st = assign[t][SyncManager.IN]
             want, = struct.unpack_from("<H", c["resp"], st)
             res.count("inputs_compared")
             if u["seen"][ti] != want:
@@ -165,21 +192,25 @@ def check_case(case, res):
                               f"cycle {n}: device of {t.name} saw "
                               f"{u['seen'][ti]:#x}, response holds "
                               f"{want:#x}", case=case)
-                return
+                return False
         # error accounting (from the second cycle on)
-        wrongs = sum(1 for (pos, cnt), rw in zip(counters, c["resp_wkc"])
-                     if (rw & 0xff) != cnt)
+        # expected = the number of terminals that really process the
+        # datagram (what the ring produced before the injected error), not
+        # the preset the packet itself carries
+        wrongs = sum(1 for rw, tw in zip(c["resp_wkc"], c["true_wkc"])
+                     if tw is not None and (rw & 0xff) != (tw & 0xff))
         if n >= 1:
             res.count("cycles_with_wrong_counter" if wrongs
                       else "cycles_all_correct")
             if u["errors"] != wrongs:
                 res.violation(
                     "unexplained:error-accounting",
-                    f"cycle {n}: {wrongs} datagrams came back with a wrong "
-                    f"counter {c['resp_wkc']} (expected "
-                    f"{[x for _, x in counters]}) but {u['errors']} errors "
-                    f"were counted", case=case)
-                return
+                    f"cycle {n}{tag}: {wrongs} datagrams came back with a "
+                    f"counter {c['resp_wkc']} different from the number of "
+                    f"terminals processing them {c['true_wkc']} (packet "
+                    f"presets {[x for _, x in counters]}) but {u['errors']} "
+                    f"errors were counted", case=case)
+                return False
     # frames sent after the first response was processed
     first_done = None
     for c in hist["cyc"]:
@@ -193,7 +224,7 @@ def check_case(case, res):
                 res.violation("unexplained:counters-not-cleared",
                               f"frame {c['k']} was sent with counters "
                               f"{c['sent_wkc']}", case=case)
-                return
+                return False
     # outputs of cycle n are in the next frame sent
     for n, u in enumerate(hist["updates"]):
         resp_k = delivered[n]["k"]
@@ -204,15 +235,15 @@ def check_case(case, res):
         for ti, (t, d) in enumerate(zip(ts, case["terms"])):
             if u["sent"][ti] is None:
                 continue
-            st = sg.pdo_assign[t][SyncManager.OUT]
+            st = assign[t][SyncManager.OUT]
             got, = struct.unpack_from("<H", f["sent"], st)
             res.count("outputs_compared")
             if got != u["sent"][ti]:
                 res.violation("unexplained:output-data",
-                              f"cycle {n}: output {u['sent'][ti]:#x} of "
+                              f"cycle {n}{tag}: output {u['sent'][ti]:#x} of "
                               f"{t.name} is not in the next frame "
                               f"({got:#x})", case=case)
-                return
+                return False
     if len(res.samples) < 2:
         res.sample(dict(terms=case["terms"], cycles=len(hist["updates"]),
                         counters=[c for _, c in counters],
